@@ -385,7 +385,7 @@ Theorem FMA_no_crash zu z x y u :
   (dform x = Ffinite -> dform y = Ffinite -> mdigits (mant x) + mdigits (mant y) < 4294967296 - 18) ->
   (dform x = Ffinite -> dform y = Ffinite -> dform u = Ffinite ->
      (scaled 1 (MinExp - 1) <= mag x * mag y)%Q /\ (mag x * mag y < scaled 1 MaxExp)%Q /\
-     (forall p', WF p' -> dform p' = Ffinite -> (mag p' == mag x * mag y)%Q -> add_span p' u + 40 < 4294967296 - 18)) ->
+     fma_span x y u + 58 < 4294967296 - 18) ->
   FMA zu z x y u <> CrashR.
 Proof.
   intros Wx Wy Wu Pz Hzu Lu Lxy Hfin.
